@@ -13,7 +13,11 @@ allocating / sending any handle from its holder to any process (pickle round tri
 child, each emulated process with the ForkingPickler registry a fresh interpreter would have) / storing
 through any handle, compared with Model/SharedHop.v in Coq and judged by `hop_monitor` (a store through any
 handle is read through every handle descending from the same allocation); real chains parent -> child ->
-grandchild (spawn) work on the object at every level.  Thorough tier: real processes, longer chains."""
+grandchild (spawn) work on the object at every level.  Thorough tier: real processes, longer chains.
+Drops: objects over one wrapper may be dropped in any order (mode mem); handles may be dropped in the process holding them
+(mode hops, Model/SharedHopDrop.v): the owner dropping its original while a receiver lives recycles storage in use -- a
+candidate defect reported as C15:storage-recycled-while-receiver-live (also on a real spawn child, mode orphan).  Lock
+arguments of either truth value: `if lock:` replaces a falsy lock object (C15:falsy-lock-replaced-by-private-lock)."""
 import ctypes
 import json
 import mmap
@@ -22,22 +26,39 @@ from vlib import core
 from vlib.core import cz, cnat, clist
 
 MANIFEST = dict(
-    text='Theorems (Coq): the creation effect sequences and accessor programs translated from sharedctypes.py on '
-         'every run equal the model; for any (dirty) memory a RawValue reads as its initialiser followed by zeros, '
-         'RawArray(n) as zeros, RawArray(init) as the initialiser; creating an object or storing through one changes '
-         'no byte of any other live object (from the C14 heap invariant, all histories); a rebuilt object is the same '
-         '(block,size) with the same lock and stores are read back; every branch of synchronized() hands the given lock to the wrapper; for any number of threads, iterations and any interleaving, '
-         '`with v.get_lock(): v.value += 1` loses no update, is mutually exclusive and cannot deadlock, while the '
-         'same without the outer lock can lose an update (witness). Correspondence of the real sharedctypes with the '
-         'model byte by byte on create/dirty/drop/recycle histories over all type codes, structures with padding, '
-         'array lengths and initialisers; recorded lock traces of the real Synchronized wrappers; the lock given is the lock used for every wrapper class, also after a pickle round trip in spawn mode (same semaphore, same storage); thorough: real '
-         'processes (visibility both ways, locked increments). Hand-overs (Model/SharedHop.v): per-process ForkingPickler registries; _new_value/rebuild_ctype regenerated as effect sequences (where the reducer is registered); theorems: for every history of spawning fresh processes, allocating, sending any handle from whatever process holds it, and storing, no handle is ever a by-value copy, every handle can be handed on again, handles descending from one allocation through any number of hops have the same store and a store through one is read through all; refuted for registration-at-allocation-only (witness: second hop copies / array raises). Correspondence: hand-over histories between emulated processes (registry reset to a fresh interpreter\'s) + real spawn chains parent->child->grandchild in the quick tier.',
+    text='Theorems (Coq): the creation effect sequences, accessor programs, _new_value/rebuild_ctype effect sequences and the test '
+         'under which SynchronizedBase.__init__ keeps the given lock, translated from sharedctypes.py on every run, equal the model. '
+         'HISTORY THEOREM (C15_history_state/_trace): for every history of creating (any kind, size, initialiser), dropping in any '
+         'order, storing and rebuilding from a fresh heap, the model on top of the C14 allocator never raises, keeps the heap invariant, '
+         'keeps objects of different allocations in disjoint blocks, and after every op every live object reads exactly a heap-free '
+         'shadow map (initial value = initialiser then zeros / zeros / initialiser, overwritten by the stores through it or its '
+         'rebuilt aliases) -- also in recycled dirty storage; single-step forms (initialised, creation/store isolated, store read back). '
+         'Atomicity: for any number of threads, iterations and any interleaving `with v.get_lock(): v.value += 1` loses no update, is '
+         'mutually exclusive and cannot deadlock; without the outer lock an update can be lost (witness). '
+         'Hand-overs (Model/SharedHop.v): per-process ForkingPickler registries; for every history of spawning, allocating, sending any '
+         'handle from whatever process holds it, and storing: no handle is ever a by-value copy, every handle can be handed on again, a '
+         'rebuilt handle is the same block of the same owner\'s arena, handles of one allocation have the same store and a store through '
+         'one is read through all; refuted for registration-at-allocation-only. '
+         'Drops across processes (Model/SharedHopDrop.v): under the discipline "the owner keeps the object it allocated until every '
+         'receiver is done" live handles of different allocations are in disjoint storage and stores do not interfere, for all histories '
+         '(C15_disciplined_*); WITHOUT it the property is refuted (C15_owner_drop_recycles_receivers_storage_refuted: a rebuilt '
+         'BufferWrapper has no finaliser, the owner frees and recycles a block a receiver still uses) -- detected on the real code '
+         '(emulated processes and real spawn child), signature C15:storage-recycled-while-receiver-live. '
+         'Lock argument: a truthy lock is the lock used (C15_given_lock_is_used_partial); refuted for lock objects that are false in a '
+         'boolean context (`if lock:`; C15_given_lock_is_used_refuted, C15_falsy_lock_loses_update_refuted), detected on the real code '
+         'with a scripted lost update, signature C15:falsy-lock-replaced-by-private-lock. '
+         'Correspondence of the real sharedctypes with the models byte by byte on create/dirty/drop/recycle/rebuild histories over all '
+         'type codes, structures with padding, array lengths and initialisers; recorded lock traces of the real Synchronized wrappers; '
+         'lock identity for every wrapper class, also after a pickle round trip in spawn mode; hand-over/drop histories between emulated '
+         'processes; real spawn chains parent->child->grandchild; thorough: real processes (visibility both ways, locked increments).',
     note='Trusted: Coq kernel, translate/kernels/sharedmem.py, harness; ctypes\' own encoding of values (the expected '
          'bytes are those of an ordinary private ctypes object); MAP_SHARED visibility and cache coherence (kernel/'
          'hardware); the recursive lock itself (C17) -- the atomicity theorem assumes acquire/release are atomic and '
-         'exclusive; CPython reference counting runs the BufferWrapper finaliser at the drop.',
-    technique='Coq proofs on top of the C14 heap invariant + small interleaving semantics + translator-regenerated '
-              'effect/instruction sequences + byte-level differential correspondence + trace monitor',
+         'exclusive; CPython reference counting runs the BufferWrapper finaliser at the drop. Two candidate defects of the pinned '
+         'tree are reported by this check (see docs/C15.md): storage recycled while a receiver is live; falsy lock objects replaced.',
+    technique='Coq proofs on top of the C14 heap invariant (coupling invariant with a shadow map; per-process heap invariants for '
+              'hand-overs with drops) + small interleaving semantics + translator-regenerated effect/instruction sequences + '
+              'byte-level differential correspondence + trace monitors + real-process scenarios',
     ref='5.15',
 )
 
@@ -667,7 +688,7 @@ def hops(res, n):
     cases = hop_boundary_cases() + hop_drop_cases() + hop_finding_cases() + [gen_hop_case(rng) for _ in range(n)]
     outs = core.run_driver('sharedmem_driver.py', dict(mode='hops', cases=cases))
     terms = [hop_to_coq(c, o) for c, o in zip(cases, outs)]
-    codes, _ = core.coq_eval('C15h', HEADER_HOPS, core.chunks(terms, 100))
+    codes, _ = core.coq_eval('C15h', HEADER_HOPS, core.chunks(terms, 30 if len(terms) <= 240 else 100))
     bad = dict(codes)
     first = True
     for i, (c, o) in enumerate(zip(cases, outs)):
@@ -857,7 +878,7 @@ def shrink(case, sig, budget=100):
 # ------------------------------------------------------------- run
 def judge(res, cases, outs, tag):
     terms = [to_coq(c, o) for c, o in zip(cases, outs)]
-    codes, _ = core.coq_eval('C15' + tag, HEADER, core.chunks(terms, 100))
+    codes, _ = core.coq_eval('C15' + tag, HEADER, core.chunks(terms, 30 if len(terms) <= 240 else 100))
     bad = dict(codes)
     first = True
     for i, (c, o) in enumerate(zip(cases, outs)):
@@ -1116,6 +1137,39 @@ def procs(res):
                 rule='real processes: visibility both ways and 4x2500 locked increments (validation of runtime assumptions)')
 
 
+BASE_COV_KEYS = ('evaluations', 'distinct_nontrivial', 'rule', 'samples', 'traces_validated_against_impl', 'obligations',
+                 'discharged', 'checker_cmd', 'trusted_base')
+
+
+def run_phases(res, phases):
+    """run independent correspondence phases side by side (each drives its own interpreter / coqc processes), every one
+    into a Result of its own; merged in the fixed order of `phases`, so alarms and coverage are deterministic"""
+    import threading
+    subs = [core.Result(res.pid, res.tier, res.seed) for _ in phases]
+    errs = [None] * len(phases)
+
+    def work(i):
+        try:
+            phases[i][1](subs[i])
+        except BaseException as exc:      # re-raised below, after the others have finished
+            errs[i] = exc
+    ths = [threading.Thread(target=work, args=(i,), name=phases[i][0]) for i in range(len(phases))]
+    for t in ths:
+        t.start()
+    for t in ths:
+        t.join()
+    for (name, _), sub in zip(phases, subs):
+        res.alarms += sub.alarms
+        res.broken += sub.broken
+        res.notes += sub.notes
+        c = sub.cov
+        res.add_cov(evaluations=c['evaluations'], distinct=c['distinct_nontrivial'], traces=c['traces_validated_against_impl'],
+                    samples=c['samples'], rule=c['rule'] or None, **{k: v for k, v in c.items() if k not in BASE_COV_KEYS})
+    for e in errs:
+        if e is not None:
+            raise e
+
+
 def run(res):
     res.proof_step('Props/C15.v', extra_targets=['Model/SharedMem.vo', 'Model/SharedHop.vo', 'Model/SharedShadow.vo', 'Model/SharedHopDrop.vo'],
                    kernels_needed=['G_sharedmem'])
@@ -1125,15 +1179,16 @@ def run(res):
     if res.broken:
         # the models must be there for the failing-input search even when the proof cone is not
         core.coq_make(['Model/SharedMem.vo', 'Model/SharedHop.vo', 'Model/SharedHopDrop.vo'])
-    correspond(res, n)
-    traces(res)
-    locks(res)
     nh = 60 if res.tier == 'quick' else 1500
     if res.broken:
         nh = max(nh, 400)
-    hops(res, nh)
-    chains(res, widen=bool(res.broken))
-    orphans(res, widen=bool(res.broken))
+    widen = bool(res.broken)
+
+    def real_processes(r):
+        chains(r, widen=widen)
+        orphans(r, widen=widen)
+    run_phases(res, [('mem', lambda r: correspond(r, n)), ('traces', traces), ('locks', locks),
+                     ('hops', lambda r: hops(r, nh)), ('real', real_processes)])
     if res.tier != 'quick':
         rng = random.Random(res.seed * 13 + 1515)
         cases = [gen_case(rng, real=True) for _ in range(200)]
@@ -1148,6 +1203,8 @@ def run(res):
         'MAP_SHARED memory written in one process is visible in another (validated by real processes in the thorough tier, not proved)',
         'the BufferWrapper finaliser runs when the last reference is dropped (CPython reference counting)',
         'frees are valid (each wrapper frees its own block once): inherited from C14',
+        'a BufferWrapper made by unpickling has no finaliser and is unknown to the owner\'s heap (default object pickling: __init__ is not '
+        'run); the generator checks that the finaliser is registered in BufferWrapper.__init__ only',
         'a process started in the style of spawn/forkserver has the ForkingPickler registry of a fresh interpreter (emulated by the driver: the '
         'registry as it is after importing billiard, snapshot taken at driver start); validated by real spawn chains',
         'all updaters use the same lock object/semaphore: checked on the real wrappers (lock identity, pickle round trip), the atomicity theorem has one lock',
